@@ -233,7 +233,7 @@ def scale_of(*pts):
     return max([abs(x) for p in pts for x in p] + [1e-300])
 
 
-def concl_cpp(a, b, p, q, t, d, nrm):
+def concl_cpp(a, b, p, q, t, d, nrm, exact=False):
     """clauses of C16_cpp_on_segment / _nearest / _signed_distance_* evaluated on implementation outputs"""
     bad = []
     L = math.hypot(b[0] - a[0], b[1] - a[1])
@@ -263,6 +263,8 @@ def concl_cpp(a, b, p, q, t, d, nrm):
     s = ((b[1] - a[1]) * (p[0] - a[0]) - (b[0] - a[0]) * (p[1] - a[1])) / L
     if s > tol and not d >= 0:
         bad.append('point on the normal side (n.(p-a) = %r) has negative distance %r' % (s, d))
+    if exact and s == 0.0 and not d >= 0:
+        bad.append('point exactly on the line must count as + (convention 0 -> +) but distance is %r' % d)
     if s < -tol and not d < 0:
         bad.append('point opposite the normal (n.(p-a) = %r) has non-negative distance %r' % (s, d))
     if abs(nrm[0] ** 2 + nrm[1] ** 2 - 1) > 1e-12 or abs(nrm[0] * (b[0] - a[0]) + nrm[1] * (b[1] - a[1])) > 1e-12 * L:
@@ -318,6 +320,40 @@ def tie_margin(a0, a1, b0, b1, n):
     return min(min(abs(v), abs(v - 1)) for v in vals)
 
 
+def tie_margin_hp(a0, a1, b0, b1, rule):
+    """the same margin in 60-digit decimal arithmetic on the exact values of the float inputs (normal rule recomputed in high
+    precision): 0 means an end point is EXACTLY aligned for these inputs, a tiny positive value means aligned up to the rounding
+    of the coordinates"""
+    from decimal import Decimal, getcontext
+    getcontext().prec = 60
+    D = lambda p: (Decimal(p[0]), Decimal(p[1]))
+    a0, a1, b0, b1 = D(a0), D(a1), D(b0), D(b1)
+
+    def nrm(e0, e1):
+        t = (e1[0] - e0[0], e1[1] - e0[1])
+        L = (t[0] * t[0] + t[1] * t[1]).sqrt()
+        return (t[1] / L, -t[0] / L)
+    n = nrm(a0, a1)
+    if rule == 'average':
+        nb = nrm(b0, b1)
+        d = (n[0] - nb[0], n[1] - nb[1])
+        L = (d[0] * d[0] + d[1] * d[1]).sqrt()
+        if L == 0:
+            return None
+        n = (d[0] / L, d[1] / L)
+
+    def xi(xa, e0, e1, nn):
+        m00, m01, m10, m11 = e0[0] - e1[0], nn[0], e0[1] - e1[1], nn[1]
+        det = m00 * m11 - m01 * m10
+        if det == 0:
+            return None
+        return ((e0[0] - xa[0]) * m11 - m01 * (e0[1] - xa[1])) / det
+    vals = [xi(a0, b0, b1, n), xi(a1, b0, b1, n), xi(b0, a0, a1, (-n[0], -n[1])), xi(b1, a0, a1, (-n[0], -n[1]))]
+    if any(v is None for v in vals):
+        return None
+    return float(min(min(abs(v), abs(v - 1)) for v in vals))
+
+
 # ----------------------------------------------------------------------------------------------- correspondence
 
 def correspondence(ctx, model_ok):
@@ -342,10 +378,10 @@ def correspondence(ctx, model_ok):
             unstable += 1
             bad = [x for x in concl_cpp(a, b, p, out['q'][i], t, out['d'][i], out['n'][i]) if 'normal side' not in x and 'opposite the normal' not in x]
         else:
-            bad = concl_cpp(a, b, p, out['q'][i], t, out['d'][i], out['n'][i])
+            bad = concl_cpp(a, b, p, out['q'][i], t, out['d'][i], out['n'][i], exact=(kind == 'exact'))
         for msg in bad:
             ctx.fail('conclusion', 'cpp/cpp_distance edge=(%r,%r) p=%r: %s' % (a, b, p, msg),
-                     case=dict(fn='cpp', a=a, b=b, p=p), concrete=True)
+                     case=dict(fn='cpp', a=a, b=b, p=p, exact=(kind == 'exact')), concrete=True)
     # rigid-motion invariance on the implementation (exact Pythagorean rotations)
     r = ctx.rng('rigid')
     rc = []
@@ -835,9 +871,8 @@ def matches_finding(fl_, f):
         # 0 <= xi <= 1 is decided by rounding; observed as a wrong overlap (parallel clause) or a value that changes under a rigid motion
         if c.get('fn') != 'mortar' or not (c.get('clause') == 'parallel' or c.get('motion')) or c.get('nan'):
             return False
-        I = impl()
-        n = [float(x) for x in I['rules'][c['rule']](I['jnp'].array([c['a0'], c['a1']]), I['jnp'].array([c['b0'], c['b1']]))]
-        return tie_margin(tuple(c['a0']), tuple(c['a1']), tuple(c['b0']), tuple(c['b1']), n) <= 1e-12
+        m = tie_margin_hp(tuple(c['a0']), tuple(c['a1']), tuple(c['b0']), tuple(c['b1']), c['rule'])
+        return m is not None and 1e-40 < m <= 1e-12
     if f.get('id') != 'C16-F1':
         return False
     if c.get('fn') != 'mortar' or c.get('rule') != 'average' or not (c.get('nan') or c.get('motion')):
@@ -862,7 +897,7 @@ def replay(ctx, path):
     if fn in ('cpp', 'cpp_rigid'):
         a, b, p = tuple(case['a']), tuple(case['b']), tuple(case['p'])
         o = run_cpp_impl([(a, b, p, 'replay')])
-        bad = concl_cpp(a, b, p, o['q'][0], o['t'][0], o['d'][0], o['n'][0])
+        bad = concl_cpp(a, b, p, o['q'][0], o['t'][0], o['d'][0], o['n'][0], exact=bool(case.get('exact')))
         if case.get('motion'):
             m = case['motion']
             o2 = run_cpp_impl([(rot(*m, a), rot(*m, b), rot(*m, p), 'replay')])
